@@ -201,10 +201,10 @@ def rejectOk (defErr : Option (Nat × Exc)) : Nat → List Cls → List Cls → 
 def clean (cs : List Cls) : Bool := cs.all (fun c => !c.frozenArg && !c.ownSetattr)
 
 def spec (c : Case) (o : Obs) : Bool :=
-  rejectOk o.defErr 0 [] c.classes &&
-  (if clean c.classes then
+  rejectOk o.defErr 0 [] c.cls &&
+  (if clean c.cls then
      o.defErr == none &&
-     stepsOk c.classes c.runValidators c.fault c.faultKind 0 (initSnap c.classes c.preset c.history) c.history o.steps
+     stepsOk c.cls c.runValidators c.fault c.faultKind 0 (initSnap c.cls c.preset c.history) c.history o.steps
    else true)
 
 /-! ## Preconditions and known deviations -/
@@ -219,8 +219,8 @@ def wfCls (c : Cls) : Bool :=
 
 /-- a non-empty chain of well-formed classes ending in an attrs class -/
 def wf (c : Case) : Bool :=
-  c.classes.all wfCls &&
-  (match c.classes.getLast? with
+  c.cls.all wfCls &&
+  (match c.cls.getLast? with
    | some l => l.kind == .attrs
    | none => false)
 
@@ -228,7 +228,7 @@ def wf (c : Case) : Bool :=
     although it wrote none itself — only a slotted class below a plain class below a hooked class gets
     there (`C06_inherits_only_when_confused`), and its subclasses that write none. -/
 def known (c : Case) : List String :=
-  match defineChain c.classes with
+  match defineChain c.cls with
   | .ok rt => if rt.inheritsHooks then ["K6"] else []
   | .error _ => []
 
